@@ -1000,6 +1000,41 @@ def oldParensGuard (t p : PKind) : Bool :=
       || (t = .add && p = .add) || (t = .mul && p = .mul) || (t = .mul && (p = .add || p = .sub)) then true
   else false
 
+
+/-! ## copy discipline of normalize._distribute (object identity, which `eval` cannot see)
+
+  `_distribute` builds clauses with `from_func(x, y)`; every operand is either deep-copied (`copy=True`, the default of
+  `exp.and_` / `exp.or_`) or MOVED into the new clause.  An operand object moved into two places is shared: the next
+  `while_changing` iteration rewrites it in place and changes both clauses.  The uses are regenerated from the source
+  (Generated/C06.lean: `distributeUses`); the same-polarity branch runs its lambda once per child of `a` (two children). -/
+inductive DOp
+  | a | c | bLeft | bRight | other
+  deriving DecidableEq, Repr
+
+structure DistUse where
+  perChild : Bool   -- inside the `replace_children(a, lambda c: …)` of the same-polarity branch
+  operand : DOp
+  copied : Bool
+  deriving DecidableEq, Repr
+
+/-- the operand objects MOVED into the output by one call (tagged with the child index for the loop variable `c`) -/
+def movedObjects (uses : List DistUse) : List (DOp × Nat) :=
+  (uses.filter (fun u => !u.perChild && !u.copied)).map (fun u => (u.operand, 0)) ++
+  [1, 2].flatMap (fun i => (uses.filter (fun u => u.perChild && !u.copied)).map
+    (fun u => (u.operand, if u.operand = .c then i else 0)))
+
+def hasDup : List (DOp × Nat) → Bool
+  | [] => false
+  | x :: xs => xs.contains x || hasDup xs
+
+/-- no operand object ends up in two places of the output -/
+def noSharing (uses : List DistUse) : Bool := !hasDup (movedObjects uses)
+
+/-- snapshot of the seeded variant (second clause built with `copy=False` in both branches) -/
+def distributeUsesCopyFalse : List DistUse :=
+  [⟨true, .c, true⟩, ⟨true, .bLeft, true⟩, ⟨true, .c, false⟩, ⟨true, .bRight, false⟩,
+   ⟨false, .a, true⟩, ⟨false, .bLeft, true⟩, ⟨false, .a, false⟩, ⟨false, .bRight, false⟩]
+
 /-- what is checked on every observed `normalize(e, dnf) = e'`: equivalence (truth table) AND the result is in the
     requested normal form (mirrored `normalized`) or is the input (possibly with BETWEEN rewritten) -/
 def checkNormalize (inverseCmp : Cmp → Cmp) (dnf : Bool) (e e' : E) : Bool :=
